@@ -94,25 +94,35 @@ package ast
 //@   ensures[C04] points-at-its-hash: result == c.Hash
 
 // Extents of composite nodes (C04): a command starts at the earlier of its
-// expression and its first redirection and ends at the later of its expression
-// and its last redirection; a redirection ends with its delimiter (here-
+// expression and its first redirection and ends with the last of its parts to
+// end; a redirection ends with its delimiter (here-
 // documents) or its word and starts at its descriptor number or its operator;
 // a word spans its first to its last part; lists end with their last member.
 //@ spec func posafter(p Pos, q Pos) bool = p.line > q.line || (p.line == q.line && p.col > q.col)
+//@ spec func poszero(p Pos) bool = p.line == 0 && p.col == 0
+// No redirection ends after its command: the end only moves forward while the
+// redirections are visited and is never before the one just visited (a
+// here-document ends after the redirections that follow it on the line).
 //@ func (*Cmd).End
 //@   site EXPR1 = call End#1
-//@   site REDIR1 = call ast.(*Redir).End#1
-//@   site EXPR = call End#2
-//@   site REDIR = call ast.(*Redir).End#2
-//@   ensures[C04] ends-with-the-later-of-expression-and-last-redirection: len(c.Redirs) != 0 && c.Expr != nil ==> site(EXPR) && site(REDIR) && (result == siteret(EXPR) || result == siteret(REDIR)) && !posafter(siteret(EXPR), result) && !posafter(siteret(REDIR), result)
+//@   site REDIR = call ast.(*Redir).End
 //@   ensures[C04] expression-only: len(c.Redirs) == 0 && c.Expr != nil ==> site(EXPR1) && result == siteret(EXPR1)
-//@   ensures[C04] redirections-only: len(c.Redirs) != 0 && c.Expr == nil ==> site(REDIR1) && result == siteret(REDIR1)
+//@   loop "for _, r := range c.Redirs" step[C04] the-end-is-not-before-this-redirection: site(REDIR) && !posafter(siteret(REDIR), end)
+//@   loop "for _, r := range c.Redirs" step[C04] the-end-never-moves-back: site(REDIR) && !posafter(at(REDIR, end), end)
+//@   ensures[C04] returns-the-end-found: len(c.Redirs) != 0 ==> result == end
+// A command made of redirections only (its simple command is empty and has
+// no position) starts at its first redirection.
 //@ func (*Cmd).Pos
 //@   site EXPR1 = call Pos#1
 //@   site EXPR = call Pos#2
 //@   site REDIR = call ast.(*Redir).Pos#2
-//@   ensures[C04] starts-with-the-earlier-of-expression-and-first-redirection: len(c.Redirs) != 0 && c.Expr != nil ==> site(EXPR) && site(REDIR) && (result == siteret(EXPR) || result == siteret(REDIR)) && !posafter(result, siteret(EXPR)) && !posafter(result, siteret(REDIR))
+//@   ensures[C04] starts-with-the-earlier-of-expression-and-first-redirection: len(c.Redirs) != 0 && c.Expr != nil && !poszero(siteret(EXPR)) ==> site(EXPR) && site(REDIR) && (result == siteret(EXPR) || result == siteret(REDIR)) && !posafter(result, siteret(EXPR)) && !posafter(result, siteret(REDIR))
+//@   ensures[C04] an-expression-without-a-position-does-not-count: len(c.Redirs) != 0 && c.Expr != nil && poszero(siteret(EXPR)) ==> site(REDIR) && result == siteret(REDIR)
 //@   ensures[C04] expression-only: len(c.Redirs) == 0 && c.Expr != nil ==> site(EXPR1) && result == siteret(EXPR1)
+// A case item that has its ")" has an end, with or without commands and ";;".
+//@ func (*CaseItem).End
+//@   ensures[C04] an-item-without-commands-ends-after-its-parenthesis: poszero(ci.Break) && len(ci.List) == 0 && !poszero(ci.Rparen) ==> result.line == ci.Rparen.line && result.col == ci.Rparen.col + 1
+//@   ensures[C04] an-item-with-a-break-ends-after-it: !poszero(ci.Break) ==> result.line == ci.Break.line && result.col == ci.Break.col + 2
 //@ func (*Redir).End
 //@   site DELIM = call ast.(Word).End#1
 //@   site WORD = call ast.(Word).End#2
